@@ -68,7 +68,8 @@ def sym_matrix_eval(expr, values, dps=30):
         return [mpmath.mpf(res[i, j]) for i in range(rows) for j in range(cols)], (rows, cols)
 
 
-def compare_model(defn, m, out, events, keys, rng, numeric=True, npoints=3, cython_model=None):
+def compare_model(defn, m, out, events, keys, rng, numeric=True, npoints=3, cython_model=None,
+                  reactant=True):
     """returns list of mismatch dicts {key, kind, detail}"""
     sy = defn.sy
     ns, np_, ne = sy.ns, sy.np, len(events)
@@ -144,7 +145,7 @@ def compare_model(defn, m, out, events, keys, rng, numeric=True, npoints=3, cyth
                                  "detail": "entry %d: pygom %r spec %r at x=%s t=%s theta=%s" % (bad + (x, t, theta))})
                     break
     # reactant matrix
-    if ne > 0 and "ode" in keys:
+    if reactant and ne > 0 and "ode" in keys:
         try:
             lam = np.asarray(m.get_ReactantMatrix())
             exp = np.asarray(out["reactant"]).reshape(ns, ne)
@@ -236,6 +237,67 @@ def chunk_worker(args):
                                 break
                     except Exception as ex:
                         r["mism"].append({"key": "conservation", "kind": "raised", "detail": repr(ex)[:300]})
+            results.append(r)
+        return {"results": results, "tlc_wall": tres.wall}
+    finally:
+        shutil.rmtree(workdir, ignore_errors=True)
+
+
+def variants_worker(args):
+    """C12: one abstract process set, several routes / orders / declaration forms; every variant must
+    give the ODE (and numeric ode / jacobian) the specification derives for the process set."""
+    seed, ids, opts = args
+    workdir = tlc.scratch_dir("pygom_or_")
+    try:
+        items, jobs = [], []
+        for i in ids:
+            rng = random.Random((seed << 20) + i)
+            defn = gen.random_defn(rng, **opts.get("gen", {}))
+            jobs.append(defn.to_json(i, want=["jac"]))
+            items.append((i, defn))
+        outs, tres = run_tlc_oracle(jobs, workdir, "v%d_%d" % (seed, ids[0]))
+        results = []
+        for (i, defn), out in zip(items, outs):
+            rng = random.Random((seed << 20) + i + 104729)
+            r = {"id": i, "describe": defn.describe(), "mism": [], "variants": [], "ns": defn.sy.ns,
+                 "np": defn.sy.np, "ne": len(defn.events())}
+            sy = defn.sy
+            for v in range(opts.get("variants", 4)):
+                order = list(range(len(defn.procs)))
+                rng.shuffle(order)
+                procs = [defn.procs[k] for k in order]
+                routes = [rng.choice(build.valid_routes(p)) for p in procs]
+                hows = [rng.choice(["ctor", "add"]) for _ in procs]
+                vd = gen.Defn(sy, defn.derived, procs, lims=defn.lims, decl=defn.decl)
+                sform = rng.choice(["list", "space", "comma", "tuples", "commaspace"])
+                pform = rng.choice(["list", "space", "comma", "commaspace", "tuple"])
+                desc = {"order": order, "routes": routes, "hows": hows, "sform": sform, "pform": pform}
+                r["variants"].append(desc)
+                try:
+                    m, events, odes = build.build(vd, rng=rng, style=rng.randrange(6), sform=sform, pform=pform,
+                                                  routes=routes, hows=hows)
+                except Exception as ex:
+                    r["mism"].append({"key": "build", "kind": "raised", "variant": desc,
+                                      "detail": "".join(traceback.format_exception_only(type(ex), ex))[:300]})
+                    continue
+                mm = compare_model(vd, m, out, events, ["ode", "jac"], rng, numeric=True, npoints=2, reactant=False)
+                # rate vector up to the event permutation, when every process stayed an event
+                if not mm and all(rt != "ODE" for rt, p in zip(routes, procs) if p["kind"] == "event") \
+                        and len(defn.events()) > 0:
+                    try:
+                        pt = gen.random_point(rng, sy)
+                        m.parameters = [float(x) for x in pt[sy.ns + 1:sy.ns + 1 + sy.np]]
+                        got = np.sort(np.asarray(m.eventRateVector([float(x) for x in pt[:sy.ns]], float(pt[sy.ns])),
+                                                 float).reshape(-1))
+                        fp = codec.full_point(sy, [float(x) for x in pt])
+                        exp = np.sort(np.array([codec.peval(sy, codec.P(t), fp) for t in out["R"]], float))
+                        if got.shape != exp.shape or not np.allclose(got, exp, rtol=1e-9, atol=1e-12):
+                            mm.append({"key": "R", "kind": "numeric-multiset", "detail": "%s vs %s" % (got, exp)})
+                    except Exception as ex:
+                        mm.append({"key": "R", "kind": "numeric-raised", "detail": repr(ex)[:300]})
+                for x in mm:
+                    x["variant"] = desc
+                r["mism"] += mm
             results.append(r)
         return {"results": results, "tlc_wall": tres.wall}
     finally:
